@@ -3,6 +3,7 @@
 //                      progressive parse abandoned after EVERY parseNext) x object lifetimes, with a ledger MemoryManager given to the parser
 //   --space initterm : all sequences up to a depth over {Initialize(default), Initialize(custom manager), Terminate, work} that are balanced
 #include "xv_xml.hpp"
+#include <xercesc/framework/XMLGrammarPoolImpl.hpp>
 #include <unordered_map>
 #include <xercesc/framework/XMLPScanToken.hpp>
 #include <xercesc/util/regx/RegularExpression.hpp>
@@ -262,6 +263,103 @@ static void run_initterm(uint64_t idx, Ctx& c) {
     if (idx % 211 == 0) c.sample("{\"sequence\":" + jstr(s) + "}");
 }
 
+// ------------------------------------------------------------------------------------------ grammar pool histories
+// One ledger manager is given to an XMLGrammarPoolImpl and to the parser(s) created on it.  Every history of <= depth operations from the
+// alphabet below is executed, then the parsers and finally the pool are destroyed: nothing may be outstanding, no foreign / double release.
+static const char* POOLOPN[] = {"loadGrammar(dtd,cache)", "loadGrammar(dtd,nocache)", "loadGrammar(xsdA,cache)", "loadGrammar(xsdA2 same namespace,cache)",
+                                "loadGrammar(xsdA,nocache)", "parse(valid schema doc, use cached)", "parse(dtd doc, cacheGrammarFromParse)", "lockPool", "unlockPool",
+                                "resetCachedGrammarPool", "second parser on the same pool", "parse(malformed)", "loadGrammar(broken xsd,cache)"};
+static const int NPOOLOP = sizeof(POOLOPN) / sizeof(POOLOPN[0]);
+static int g_pooldepth = 3;
+static const char* POOLSCN[] = {"IGXMLScanner", "DGXMLScanner", "SGXMLScanner"};
+static std::string pool_label(uint64_t idx) {
+    int api = (int)(idx % 2), sc = (int)((idx / 2) % 3);
+    std::string s = std::string(api ? "XercesDOMParser/" : "SAX2XMLReader/") + POOLSCN[sc] + ":";
+    for (int o : word_at(idx / 6, NPOOLOP, g_pooldepth)) s += std::string(" ") + POOLOPN[o] + ";";
+    return s;
+}
+static void run_pool(uint64_t idx, Ctx& c) {
+    int api = (int)(idx % 2), sc = (int)((idx / 2) % 3);
+    std::vector<int> ops = word_at(idx / 6, NPOOLOP, g_pooldepth);
+    static const std::string DTD = "<!ELEMENT r (c*)><!ATTLIST r a CDATA 'd' i ID #IMPLIED><!ELEMENT c (#PCDATA)><!ENTITY e 'v'>";
+    static const std::string XSDA = "<xs:schema xmlns:xs='http://www.w3.org/2001/XMLSchema' targetNamespace='urn:a' xmlns:a='urn:a' elementFormDefault='qualified'>"
+                                    "<xs:element name='r'><xs:complexType><xs:sequence><xs:element name='c' type='a:T' minOccurs='0' maxOccurs='unbounded'/></xs:sequence>"
+                                    "<xs:attribute name='k' type='xs:int' default='1'/></xs:complexType></xs:element>"
+                                    "<xs:simpleType name='T'><xs:restriction base='xs:string'><xs:pattern value='[a-z]*'/><xs:enumeration value='x'/><xs:enumeration value='y'/></xs:restriction></xs:simpleType></xs:schema>";
+    static const std::string XSDA2 = "<xs:schema xmlns:xs='http://www.w3.org/2001/XMLSchema' targetNamespace='urn:a'><xs:element name='other' type='xs:date'/></xs:schema>";
+    static const std::string XSDBAD = "<xs:schema xmlns:xs='http://www.w3.org/2001/XMLSchema' targetNamespace='urn:b'><xs:element name='r' type='nosuch'/><xs:element name='r'/></xs:schema>";
+    static const std::string DOCA = "<a:r xmlns:a='urn:a'><a:c>x</a:c><a:c>q</a:c></a:r>";
+    static const std::string DOCD = "<!DOCTYPE r SYSTEM 'g.dtd'><r i='x'><c>&e;</c></r>";
+    static const std::string DOCBAD = "<r><c></r>";
+    Ledger mm("pool+parsers");
+    std::string hist;
+    {
+        ParseResult r; Config cfg = base_cfg(api ? (int)DOM : (int)SAX2);
+        g_vfs->clear(); g_vfs->put("/v/g.dtd", DTD);
+        XMLGrammarPoolImpl* pool = new (&mm) XMLGrammarPoolImpl(&mm);
+        struct P { SAX2XMLReaderImpl* s = nullptr; XercesDOMParser* d = nullptr; };
+        std::vector<P> ps;
+        Sax2H h2; h2.r = &r; h2.cfg = &cfg; h2.nsmode = true;
+        Sax1H h1; h1.r = &r; h1.cfg = &cfg;
+        auto mk = [&]() {
+            P p;
+            if (api == 0) {
+                p.s = new (&mm) SAX2XMLReaderImpl(&mm, pool);
+                p.s->setFeature(XMLUni::fgXercesSchema, true); p.s->setFeature(XMLUni::fgSAX2CoreValidation, true); p.s->setFeature(XMLUni::fgXercesDynamic, true);
+                p.s->setContentHandler(&h2); p.s->setErrorHandler(&h2);
+                p.s->setProperty(XMLUni::fgXercesScannerName, (void*)X16(POOLSCN[sc]).p());
+            } else {
+                p.d = new (&mm) XercesDOMParser(0, &mm, pool);
+                p.d->setDoNamespaces(true); p.d->setDoSchema(true); p.d->setValidationScheme(XercesDOMParser::Val_Auto);
+                p.d->setErrorHandler(&h1);
+                p.d->useScanner(X16(POOLSCN[sc]).p());
+            }
+            ps.push_back(p);
+        };
+        mk();
+        size_t cur = 0;
+        auto load = [&](const std::string& text, const char* sysId, Grammar::GrammarType t, bool cache) {
+            MemBufInputSource src((const XMLByte*)text.data(), text.size(), X16(sysId).p(), false, &mm);
+            try { if (ps[cur].s) ps[cur].s->loadGrammar(src, t, cache); else ps[cur].d->loadGrammar(src, t, cache); } XV_CATCH_DOCUMENTED(r)
+        };
+        auto parse = [&](const std::string& text, bool useCached, bool cacheFromParse) {
+            MemBufInputSource src((const XMLByte*)text.data(), text.size(), X16("/v/doc.xml").p(), false, &mm);
+            try {
+                if (ps[cur].s) { ps[cur].s->setFeature(XMLUni::fgXercesUseCachedGrammarInParse, useCached); ps[cur].s->setFeature(XMLUni::fgXercesCacheGrammarFromParse, cacheFromParse); ps[cur].s->parse(src); }
+                else { ps[cur].d->useCachedGrammarInParse(useCached); ps[cur].d->cacheGrammarFromParse(cacheFromParse); ps[cur].d->parse(src); }
+            } XV_CATCH_DOCUMENTED(r)
+        };
+        for (int op : ops) {
+            hist += std::string(POOLOPN[op]) + "; ";
+            switch (op) {
+            case 0: load(DTD, "/v/g.dtd", Grammar::DTDGrammarType, true); break;
+            case 1: load(DTD, "/v/g.dtd", Grammar::DTDGrammarType, false); break;
+            case 2: load(XSDA, "/v/a.xsd", Grammar::SchemaGrammarType, true); break;
+            case 3: load(XSDA2, "/v/a2.xsd", Grammar::SchemaGrammarType, true); break;
+            case 4: load(XSDA, "/v/a.xsd", Grammar::SchemaGrammarType, false); break;
+            case 5: parse(DOCA, true, false); break;
+            case 6: parse(DOCD, false, true); break;
+            case 7: pool->lockPool(); break;
+            case 8: pool->unlockPool(); break;
+            case 9: try { if (ps[cur].s) ps[cur].s->resetCachedGrammarPool(); else ps[cur].d->resetCachedGrammarPool(); } XV_CATCH_DOCUMENTED(r) break;
+            case 10: if (ps.size() < 2) mk(); cur = 1 - cur < ps.size() ? 1 - cur : cur; break;
+            case 11: parse(DOCBAD, true, true); break;
+            default: load(XSDBAD, "/v/b.xsd", Grammar::SchemaGrammarType, true); break;
+            }
+        }
+        if (r.exc.compare(0, 7, "FOREIGN") == 0) c.violation("foreign-exception", "\"exc\":" + jstr(r.exc) + ",\"history\":" + jstr(hist));
+        for (auto& p : ps) { delete p.s; delete p.d; }
+        delete pool;
+    }
+    for (auto& f : mm.faults) c.violation("manager-discipline", "\"fault\":" + jstr(f) + ",\"api\":" + jstr(std::string(api ? "XercesDOMParser/" : "SAX2XMLReader/") + POOLSCN[sc]) + ",\"history\":" + jstr(hist));
+    for (auto& f : g_global->faults) c.violation("manager-discipline", "\"fault\":" + jstr(f) + ",\"api\":" + jstr(std::string(api ? "XercesDOMParser/" : "SAX2XMLReader/") + POOLSCN[sc]) + ",\"history\":" + jstr(hist));
+    g_global->faults.clear();
+    if (mm.live != 0) c.violation("outstanding-after-destruction", "\"blocks\":" + std::to_string(mm.live) + ",\"api\":" + jstr(std::string(api ? "XercesDOMParser/" : "SAX2XMLReader/") + POOLSCN[sc]) + ",\"history\":" + jstr(hist));
+    if (mm.live) { std::vector<void*> v; for (auto& kv : g_owner) if (kv.second == &mm) v.push_back(kv.first); for (void* p : v) { g_owner.erase(p); free(p); } mm.live = 0; }
+    c.count("pool_histories"); c.count("allocations_through_ledger", mm.total);
+    if (idx % 499 == 0) c.sample("{\"history\":" + jstr(pool_label(idx)) + "}");
+}
+
 int main(int argc, char** argv) {
     Args a(argc, argv);
     std::string space = a.str("space", "parse");
@@ -279,6 +377,14 @@ int main(int argc, char** argv) {
         R.total = words_upto(6, g_itdepth); R.fn = run_initterm;
         R.describe = [](uint64_t i) { std::string s; for (int o : word_at(i, 6, g_itdepth)) s += std::to_string(o); return "{\"sequence\":" + jstr(s) + "}"; };
         R.extra_json = "\"depth\":" + std::to_string(g_itdepth);
+    } else if (space == "pool") {
+        g_global = new Ledger("global");
+        XMLPlatformUtils::Initialize(XMLUni::fgXercescDefaultLocale, 0, 0, g_global);
+        g_vfs = new Vfs(); delete XMLPlatformUtils::fgFileMgr; XMLPlatformUtils::fgFileMgr = g_vfs;
+        g_pooldepth = (int)a.num("depth", 3);
+        R.total = words_upto(NPOOLOP, g_pooldepth) * 6; R.fn = run_pool;
+        R.describe = [](uint64_t i) { return "{\"history\":" + jstr(pool_label(i)) + "}"; };
+        R.extra_json = "\"depth\":" + std::to_string(g_pooldepth) + ",\"alphabet\":" + std::to_string(NPOOLOP);
     } else return 2;
     return R.main_tail(a);
 }
